@@ -268,6 +268,9 @@ Record cinputs := mkCI {
 
 Section FINALIZE.
 Variable d1fix : bool.
+(** [d14fix = false]: the pinned code, which on the expansion path did not add the boundary files
+    of the parent level to the re-selected parent files; [true]: after the repair (as LevelDB). *)
+Variable d14fix : bool.
 Variable mfs : N.      (* max_file_size *)
 
 (** [None] = a panic (empty input list) *)
@@ -295,7 +298,8 @@ Definition finalize_inputs (v : version) (level : nat) (in0_seed : list fmeta) :
                   match key_range_for_files d1fix exp0 with
                   | None => None
                   | Some rnew =>
-                      let exp1 := overlapping_inputs v (S level) (Some (fst rnew)) (Some (snd rnew)) in
+                      let exp1_0 := overlapping_inputs v (S level) (Some (fst rnew)) (Some (snd rnew)) in
+                      let exp1 := if d14fix then add_boundary_inputs lf1 exp1_0 else exp1_0 in
                       if Nat.eqb (length exp1) (length in1) then
                         match key_range_for_two d1fix exp0 exp1 with
                         | None => None
